@@ -115,6 +115,8 @@ def judge(part, ad, base, decls0, sc):
         part.fail("%s: analysis failed: %r" % (sc.get("what"), res), sc); return
     decls = split_decls(res["tree"])
     what = sc.get("what")
+    if "errors" not in res:
+        part.fail("%s: the diagnostics of the damaged program cannot be computed (errors() panicked: %r)" % (what, res.get("errors_panic")), sc); return
     # declarations before the damaged one: same position in the list; after it: counted from the end
     for j in range(n):
         if j == k: continue
